@@ -105,7 +105,9 @@ def sh(cmd, timeout=900, cwd=None):
 def run_model(prop_id, imports, terms, tag='cases', shard=400, timeout=900):
     """Evaluate Coq terms of type bstr by vm_compute; returns list of parsed values (None where missing)."""
     if not terms:
-        return []
+        return [], []
+    # spread the work over the cores: between 50 and `shard` cases per coqc
+    shard = max(50, min(shard, -(-len(terms) // NPROC)))
     d = os.path.join(BUILD, 'cases', '%s_%s_%d' % (prop_id, tag, os.getpid()))
     os.makedirs(d, exist_ok=True)
     files = []
@@ -575,6 +577,11 @@ def main_check(prop_id, tier, seed, replay=None):
     recs, errs = ([], [])
     if model_built:
         recs, errs = evaluate_cases(mod, cases)
+        if any('inconsistent assumptions' in e[2] or 'Compiled library' in e[2] for e in errs):
+            # another check rebuilt a shared library between our build and our evaluation (concurrent runs): rebuild, retry once
+            with Lock():
+                build_targets([target] + extra)
+            recs, errs = evaluate_cases(mod, cases)
         for fn, rc, outp in errs:
             broken.append('model evaluation failed (%s rc=%s): %s' % (os.path.basename(fn), rc, outp[-500:]))
     else:
